@@ -513,6 +513,16 @@ SPEC = [
     ('dispatch_producer', 'conversion_utils.py', 'seismic_file_producer', ('ifcall', 'put', 0), 'Prop'),
     ('dispatch_numpy', 'conversion_utils.py', 'numpy_producer', ('ifcall', 'put', 0), 'Prop'),
     ('dispatch_2d', 'conversion_utils.py', 'seismic_file_producer_2d', ('ifcall', 'put', 0), 'Prop'),
+    # loader.py: z-slice reads on N x M x 4 layouts (integral bit rates)
+    ('adv_sub_block', 'loader.py', 'SgzLoader3d.read_and_decompress_zslice_set_adv', ('assign', 'sub_block_size_bytes', 0), 'Nat'),
+    ('adv_count', 'loader.py', 'SgzLoader3d.read_and_decompress_zslice_set_adv', ('callarg', 'range', 0, 0), 'Nat'),
+    ('adv_block_i', 'loader.py', 'SgzLoader3d._distribute_chunk_into_buffer', ('assign', 'block_i', 0), 'Nat'),
+    ('adv_block_x', 'loader.py', 'SgzLoader3d._distribute_chunk_into_buffer', ('assign', 'block_x', 0), 'Nat'),
+    ('adv_block_num', 'loader.py', 'SgzLoader3d._distribute_chunk_into_buffer', ('assign', 'block_num', 0), 'Nat'),
+    ('adv_fetch_offset', 'loader.py', 'SgzLoader3d._distribute_chunk_into_buffer', ('callarg', '_get_compressed_bytes', 0, 0), 'Nat'),
+    ('adv_rows', 'loader.py', 'SgzLoader3d._distribute_chunk_into_buffer', ('callarg', 'range', 0, 0), 'Nat'),
+    ('adv_buf_start', 'loader.py', 'SgzLoader3d._distribute_chunk_into_buffer', ('assign', 'buf_start', 0), 'Nat'),
+    ('adv_src_lo', 'loader.py', 'SgzLoader3d._distribute_chunk_into_buffer', ('subscript', 'temp_buf', 0, 0, 'lower'), 'Nat'),
     # loader.py, 2D
     ('trace_range_offset', 'loader.py', 'SgzLoader2d.read_and_decompress_trace_range', ('assign', 'block_offset', 0), 'Nat'),
     ('trace_range_length', 'loader.py', 'SgzLoader2d.read_and_decompress_trace_range', ('callarg', '_get_compressed_bytes', 0, 1), 'Nat'),
